@@ -16,6 +16,7 @@ import (
 	"github.com/libp2p/go-libp2p/core/peer"
 	"github.com/libp2p/go-libp2p/core/peerstore"
 	ma "github.com/multiformats/go-multiaddr"
+	manet "github.com/multiformats/go-multiaddr/net"
 )
 
 // caps of the statement ("the numbers of protocols and addresses retained per peer are capped";
@@ -230,6 +231,7 @@ func (w *world) observe(label string, o obs) {
 	addrs := ps.Addrs(P)
 	learned := 0
 	bySrc := map[string]int{}
+	byClass := map[string]int{}
 	w.mu.Lock()
 	seededP := make(map[string]bool, len(w.seededP))
 	for kk := range w.seededP {
@@ -247,6 +249,18 @@ func (w *world) observe(label string, o obs) {
 		learned++
 		if src := w.cl.okAddr[key]; src != "" {
 			bySrc[src]++
+			// evidence only (address classes are not part of the statement): which classes of P's
+			// addresses survive identify's filter for this class of remote address
+			switch {
+			case manet.IsIPLoopback(a):
+				byClass["loopback"]++
+			case manet.IsPrivateAddr(a):
+				byClass["private"]++
+			case manet.IsPublicAddr(a):
+				byClass["public"]++
+			default:
+				byClass["other"]++
+			}
 			continue
 		}
 		why := w.cl.badAddr[key]
@@ -257,6 +271,9 @@ func (w *world) observe(label string, o obs) {
 	}
 	for src, n := range bySrc {
 		w.count("addrs_observed_from_"+src, n)
+	}
+	for cl, n := range byClass {
+		w.count("stored_for_remote_"+w.k.PClass+"_addr_"+cl, n)
 	}
 	if bySrc["signed-record"] > 0 || bySrc["listen"] > 0 {
 		w.nonT = true
